@@ -9,6 +9,8 @@ package main
 // and model-free monitors evaluate the sentence of C16 on the real result.
 
 import (
+	"encoding/json"
+	"time"
 	"bytes"
 	"encoding/hex"
 	"fmt"
@@ -350,7 +352,9 @@ func wire(dms []*nom.DetailedMomentum) []*nom.DetailedMomentum {
 // syncFollower is a follower with its stream id.
 type syncFollower struct {
 	*follower
-	id int
+	id       int
+	switches int // how many times this node left its chain (or was rolled back)
+	lastOK   bool // the most recent delivery was accepted completely
 }
 
 type syncRun struct {
@@ -395,6 +399,7 @@ func (r *syncRun) deliver(f *syncFollower, kind string, batch []elem) bool {
 		toks[i] = elemTok(e)
 	}
 	idx, err, pn := f.insertChain(wire(dms))
+	f.lastOK = err == nil && pn == nil
 	after := f.hashes()
 	class := classifyInsertErr(err)
 	if pn != nil {
@@ -446,6 +451,7 @@ func (r *syncRun) deliver(f *syncFollower, kind string, batch []elem) bool {
 		cp := commonPrefix(before, after)
 		depth := len(before) - cp
 		c.Hit("left-own-chain")
+		f.switches++
 		if depth > 30 {
 			c.Fail("C16 class=rolled-back-too-far node rolled back %d > 30 momentums (%d -> fork %d) %s", depth, len(before), cp, desc)
 		}
@@ -566,6 +572,81 @@ func (r *syncRun) reverify(f *syncFollower) {
 		}
 	}
 	c.Hit("reverified-chains")
+	r.noTrace(f, fresh.follower0())
+}
+
+func (f *follower) follower0() *follower { return f }
+
+// noTrace (C06): a follower that went through reorganisations, refused batches and rollbacks is compared with a fresh node
+// that only ever saw the chain the follower holds now: ledger state byte for byte, historical views, the unconfirmed
+// pool, and the consensus statistics (epoch statistics, pillar weights, delegations, the elected producer of every slot).
+func (r *syncRun) noTrace(f *syncFollower, fresh *follower) {
+	c := r.c
+	if a, b := digestDB(f.mgr.Frontier()), digestDB(fresh.mgr.Frontier()); a != b {
+		c.Fail("C06: follower %d (after %d chain switches) holds ledger state %s, a node that only saw its current chain holds %s", f.id, f.switches, a, b)
+		return
+	}
+	hs := f.hashes()
+	for k := 0; k < 6 && len(hs) > 2; k++ {
+		i := 1 + c.R.Intn(len(hs)-1)
+		id := types.HashHeight{Hash: hs[i], Height: uint64(i + 1)}
+		va, vb := f.mgr.Get(id), fresh.mgr.Get(id)
+		if (va == nil) != (vb == nil) || (va != nil && digestDB(va) != digestDB(vb)) {
+			c.Fail("C06: the historical view at height %d of follower %d (after %d chain switches) differs from that of a node that only saw its current chain", i+1, f.id, f.switches)
+			return
+		}
+	}
+	// (account blocks of a refused batch may stay pooled like any gossiped block; the pool is compared when the node's last
+	// delivery was accepted in full, i.e. right after a completed switch or extension)
+	pa, pb := f.ch.GetAllUncommittedAccountBlocks(), fresh.ch.GetAllUncommittedAccountBlocks()
+	if f.lastOK && len(pa) != len(pb) {
+		c.Fail("C06: the unconfirmed pool of follower %d (after %d chain switches) holds %d blocks, that of a node that only saw its current chain %d", f.id, f.switches, len(pa), len(pb))
+		return
+	}
+	js := func(v interface{}, err error) string {
+		if err != nil {
+			return "error: " + firstLine(err.Error())
+		}
+		b, _ := json.Marshal(v) // maps are marshalled with sorted keys
+		return string(b)
+	}
+	ra, rb := f.cons.FrontierPillarReader(), fresh.cons.FrontierPillarReader()
+	for e := uint64(0); e < 2; e++ {
+		if a, b := js(ra.EpochStats(e)), js(rb.EpochStats(e)); a != b {
+			c.Fail("C06: consensus statistics of epoch %d on follower %d (after %d chain switches): %.300s — on a node that only saw its current chain: %.300s", e, f.id, f.switches, a, b)
+			return
+		}
+		if a, b := js(ra.GetPillarDelegationsByEpoch(e)), js(rb.GetPillarDelegationsByEpoch(e)); a != b {
+			c.Fail("C06: pillar delegations of epoch %d on follower %d (after %d chain switches) differ from a node that only saw its current chain: %.200s vs %.200s", e, f.id, f.switches, a, b)
+			return
+		}
+	}
+	if a, b := js(ra.GetPillarWeights()), js(rb.GetPillarWeights()); a != b {
+		c.Fail("C06: pillar weights on follower %d (after %d chain switches) differ from a node that only saw its current chain", f.id, f.switches)
+		return
+	}
+	// the elected producer of every slot from genesis to one tick past the frontier
+	gen := f.ch.GetGenesisMomentum().Timestamp.Unix()
+	fr := f.frontier().Timestamp.Unix()
+	for t := gen + 10; t <= fr+300; t += 10 {
+		a, ea := f.cons.GetMomentumProducer(time.Unix(t, 0))
+		b, eb := fresh.cons.GetMomentumProducer(time.Unix(t, 0))
+		sa, sb := "none", "none"
+		if ea == nil && a != nil {
+			sa = a.String()
+		}
+		if eb == nil && b != nil {
+			sb = b.String()
+		}
+		if sa != sb {
+			c.Fail("C05/C06: slot at +%ds: follower %d (after %d chain switches) elects %s, a node that only saw its current chain elects %s", t-gen, f.id, f.switches, sa, sb)
+			return
+		}
+	}
+	c.Hit("no-trace-compared")
+	if f.switches > 0 {
+		c.Hit("no-trace-compared-after-switch")
+	}
 }
 
 // pathsThrough returns the indices of history paths the follower's chain is a prefix of.
